@@ -320,9 +320,9 @@ CHECKS["C07"] = {
     },
     "covers": {"all": ["ZZ_C07_SweepEmpty:C07.sweep.done", "ZZ_C07_SweepGtp5g:C07.sweep.done", "ZZ_C07_RawAnyEmpty:C07.raw.done", "ZZ_C07_RawAnyGtp5g:C07.raw.done",
                        "ZZ_C07_RawHandledEmpty:C07.raw.done", "ZZ_C07_RawHandledGtp5g:C07.raw.done"]},
-    "bounds": {"quick": "(a) envelope: after a valid prefix (association, a bystander session, a second session created and deleted) ONE datagram of n fully symbolic octets from the associated or from an unknown peer goes through the real receive path (rcvCh -> go-pfcp message.Parse with its header, message and IE decoders -> transactions -> dispatcher -> handlers -> driver): every n in 0..12 with all 256 message types, and every n in 8..14 with the message type fixed to one of the six that go-upf dispatches (1, 5, 50, 52, 54, 57); afterwards a Heartbeat from the other peer must be answered with the right type and sequence number and the bystander must be intact unless the datagram is a Modification/Deletion carrying its SEID or an Association Setup. "
+    "bounds": {"quick": "(a) envelope: after a valid prefix (association, a bystander session, a second session created and deleted; for the dispatched-type entries also a fresh server with nothing associated) ONE datagram of n fully symbolic octets from the associated or from an unknown peer goes through the real receive path (rcvCh -> go-pfcp message.Parse with its header, message and IE decoders -> transactions -> dispatcher -> handlers -> driver): every n in 0..12 with all 256 message types, and every n in 8..14 with the message type fixed to one of the six that go-upf dispatches (1, 5, 50, 52, 54, 57); afterwards a Heartbeat from the other peer must be answered with the right type and sequence number and the bystander must be intact unless the datagram is a Modification/Deletion carrying its SEID or an Association Setup. "
                         "(b) IE payload sweep through the real event loop (PfcpServer.main + receiver as coroutines, marshalled datagrams) after an association and a bystander session: for each of 39 leaf IE types that go-upf or the gtp5g driver decodes (Node ID, F-SEID, and the children of Create/Update PDR, PDI, FAR, Forwarding Parameters, QER, URR, BAR) one IE with a symbolic payload of every length 0..nominal+2 inside an otherwise well-formed Establishment and a following Modification, with the no-op driver and with the gtp5g driver on the simulated kernel; afterwards a Heartbeat must be answered and the bystander intact. SDF Filter: flow-description octets ASCII; FD length field <= payload length or >= 256",
-               "thorough": "(a) every n in 0..16 with all message types, every n in 8..18 with a dispatched type; (b) same with the SDF Filter FD length field unconstrained (every feasible value up to the buffer capacity is a path)"},
+               "thorough": "(a) every n in 0..16 with all message types, every n in 8..18 with a dispatched type, and for n <= 14 also the same octets delivered twice (retransmission of a possibly malformed request); (b) same with the SDF Filter FD length field unconstrained (every feasible value up to the buffer capacity is a path)"},
     "outside": "raw datagrams longer than the stated n (up to the 1500-octet maximum), and more than one raw datagram per history; several malformed IEs in one message beyond what fits in n octets; non-ASCII flow-description text; the kernel's UDP stack (datagrams enter at rcvCh, exactly as the receiver goroutine forwards them); header-SEID addressing is decided under C04 (ZZ_C04_ModifyHeader / DeleteHeader with an unconstrained 64-bit SEID)",
     "assumptions": PFCP_ASSUME + FWD_ASSUME,
 }
